@@ -68,6 +68,10 @@ func newSchema(table string, master []sqliteMaster) (*Schema, error) {
 		return nil, errors.New("unsupported CREATE TABLE statement")
 	}
 
+	if err := checkConstraintColumns(ct); err != nil {
+		return nil, err
+	}
+
 	st := newCreateTable(ct)
 
 	for _, m := range master {
@@ -82,6 +86,30 @@ func newSchema(table string, master []sqliteMaster) (*Schema, error) {
 	}
 
 	return st, nil
+}
+
+// PRIMARY KEY and UNIQUE table constraints can only use columns of the table
+// (SQLite doesn't accept anything else either).
+func checkConstraintColumns(ct sql.CreateTableStmt) error {
+	for _, c := range ct.Constraints {
+		var cols []sql.IndexedColumn
+		switch c := c.(type) {
+		case sql.TablePrimaryKey:
+			cols = c.IndexedColumns
+		case sql.TableUnique:
+			cols = c.IndexedColumns
+		}
+	column:
+		for _, col := range cols {
+			for _, def := range ct.Columns {
+				if col.Column != "" && strings.ToLower(def.Name) == strings.ToLower(col.Column) {
+					continue column
+				}
+			}
+			return ErrInvalidDef
+		}
+	}
+	return nil
 }
 
 // transform a `create table` statement into a Schema, which knows which
